@@ -1002,6 +1002,8 @@ def judge_item(it, impl, model):
 
     def fnd(kind, extra, detail):
         s = dict(sig)
+        if "defect" in extra:
+            s = {"family": "keysort" if extra["defect"].startswith("keysort") else ("assoc" if fam == "assoc" else "sort")}
         s.update(extra)
         c = {"items": [strip_item(it)], "expected": extra.get("expected"), "observed": iv, "model_out": mv, "query": it["prolog"]}
         return core.Finding(kind, s, detail, c)
@@ -1081,7 +1083,7 @@ def run(ctx):
     else:
         cases = [make_case("k%d" % i, [dict(x) for x in c["items"]]) for i, c in enumerate(diff.load_corpus("C14"))]
         if tier == "quick":
-            ns, no, na, nl, ml, mo = 2500, 2500, 300, 2500, 40, 60
+            ns, no, na, nl, ml, mo = 1500, 1500, 200, 1500, 40, 60
         else:
             ns, no, na, nl, ml, mo = 30000, 30000, 3000, 30000, 120, 200
         items = gen_sort_items(rng, ns, ml) + gen_oset_items(rng, no, min(ml, 30)) + gen_list_items(rng, nl, min(ml, 30))
